@@ -23,6 +23,7 @@ const (
 	mStr
 	mUserFn
 	mBuiltin
+	mBool
 )
 
 type mval struct {
@@ -43,6 +44,8 @@ func (v mval) String() string {
 		return "userFn"
 	case mBuiltin:
 		return "builtin:" + v.s
+	case mBool:
+		return "false"
 	}
 	return "?"
 }
@@ -61,6 +64,8 @@ func (v mval) real() interface{} {
 		return c10UserFn
 	case mBuiltin:
 		return plush.Helpers.All()[v.s]
+	case mBool:
+		return false
 	}
 	return nil
 }
@@ -77,6 +82,9 @@ func (v mval) matches(real interface{}) bool {
 	case mStr:
 		s, ok := real.(string)
 		return ok && s == v.s
+	case mBool:
+		b, ok := real.(bool)
+		return ok && !b
 	case mUserFn:
 		rv := reflect.ValueOf(real)
 		return rv.IsValid() && rv.Kind() == reflect.Func && rv.Pointer() == c10UserFnPtr
@@ -178,7 +186,13 @@ var (
 )
 
 func drawVal(t *rapid.T, label string) mval {
-	switch rapid.IntRange(0, 5).Draw(t, label) {
+	switch rapid.IntRange(0, 8).Draw(t, label) {
+	case 6:
+		return mval{kind: mInt, i: 0} // non-nil "empty" values: Has must be true
+	case 7:
+		return mval{kind: mStr, s: ""}
+	case 8:
+		return mval{kind: mBool}
 	case 0:
 		return mval{kind: mNil}
 	case 1:
@@ -212,7 +226,7 @@ type wrappedKey string
 // c10Run executes one history against plush and the model.
 func c10Run(t *rapid.T) {
 	mp := drawMapOrder(t)
-	maxCtx := 8
+	maxCtx := 10
 	nops := rapid.IntRange(1, 60).Draw(t, "nops")
 	var live []*mctx
 	var hist []string
@@ -286,6 +300,9 @@ func c10Run(t *rapid.T) {
 			live = append(live, c)
 		case kind == 3 && len(live) < maxCtx:
 			p := live[rapid.IntRange(0, len(live)-1).Draw(t, "parent")]
+			if rapid.Bool().Draw(t, "deep") {
+				p = live[len(live)-1] // grow a chain: depth matters (depth-limited lookups)
+			}
 			hist = append(hist, fmt.Sprintf("ctx#%d = ctx#%d.New()", nextID, p.id))
 			c := newModel(p, map[string]mval{}, nil)
 			n := p.real.New()
